@@ -2,10 +2,12 @@
 # Cold build of the harness and of the oal binaries; offline.
 set -eu
 cd "$(dirname "$0")"
+HERE="$(pwd)"
 export CARGO_NET_OFFLINE=true
+export CARGO_TARGET_DIR="$HERE/target"
 mkdir -p target evidence replays
 ( cd harness && cargo build --release )
 cargo build --release --manifest-path /repo/Cargo.toml -p oal-client --bins \
-   --target-dir /verif/target/repo \
+   --target-dir "$HERE/target/repo" \
    --config 'profile.release.debug-assertions=true' --config 'profile.release.overflow-checks=true'
 echo "setup ok"
